@@ -860,6 +860,9 @@ class Engine:
     def display(self,run,v):
         """ToString via the in-crate Display impl"""
         d=deref(v)
+        if isinstance(d,Agg) and d.ty=='serde_json::Number':
+            from .models_json import number_text
+            return StringO(number_text(run,d))
         c=self.impl_index.get(('Display',self.type_of(d),'fmt'))
         if not c or len(c)!=1: raise Unsupported('Display of '+self.type_of(d))
         buf=StringO([])
